@@ -588,9 +588,12 @@ impl SinkWaitingResponse {
                             .map(|x| x.trim().to_lowercase()),
                     );
                 }
-            } else if dechunked && h.name.eq_ignore_ascii_case("transfer-encoding") {
+            } else if h.name.eq_ignore_ascii_case("transfer-encoding") {
+                // Transfer-Encoding overrides Content-Length, which is not passed on (RFC 9112 6.3)
                 drop_headers.insert("content-length".to_string());
-                drop_headers.insert("transfer-encoding".to_string());
+                if dechunked {
+                    drop_headers.insert("transfer-encoding".to_string());
+                }
             }
         }
         for h in response.headers {
